@@ -834,8 +834,9 @@ class Design:
     def errors(self):
         return [f for f in self.findings]
 
-    def sim(self):
-        return Sim(self)
+    def sim(self, init=None):
+        """init: optional {input port: value} applied before the initialisation phase (inputs driven from time 0)"""
+        return Sim(self, init)
 
 
 _design_cache = {}
@@ -855,13 +856,17 @@ def compile_design(text, top=None, poison=False, poison_exclude=()):
 class Sim:
     MAX_DELTAS = 500
 
-    def __init__(self, d: Design):
+    def __init__(self, d: Design, init=None):
         self.d = d
         self.S = list(d.S_init)
+        if init:
+            for name, value in init.items():
+                sid, ty, mode = d.ports[name]
+                self.S[sid] = to_raw(ty, value)
         self.V = list(d.V_init)
         self.N = {}
         self.EV = set()
-        self.L = list(d.S_init)
+        self.L = list(self.S)
         self.A = []  # assertion messages
         self.PS = set()
         self.PR = []  # poisoned reads (variable ids)
